@@ -541,6 +541,20 @@ def check_table(acc, types, header, rows, domain, depth, case):
             if ctx.table("in place: after a refused index_name", "column with repeated values" + zero, {"index_name": c}, lambda: t2, mh, mr) is None:
                 continue
             ctx.value("in place: after a refused index_name", "index_name", {"index_name": c}, lambda: t2.index_name, None)
+        # refused changes (a column of the wrong length, deleting a column that is not there) leave the table as it was
+        def _bad_col():
+            t2.columns["zz"] = list(range(n + 1))
+            return t2
+
+        def _bad_del():
+            del t2.columns["no such column"]
+            return t2
+
+        if n:  # a table without rows takes its number of rows from the first column it is given
+            ctx.table("in place: columns[new] = values of the wrong length", "refused" + zero, None, _bad_col, mh, mr, raises=ValueError)
+        ctx.table("in place: del columns[missing]", "refused" + zero, None, _bad_del, mh, mr, raises=KeyError)
+        if ctx.table("in place: after refused column changes", "refused" + zero, None, lambda: t2, mh, mr) is None:
+            continue
         newvals = list(range(100, 100 + n))
 
         def _set_col():
